@@ -108,11 +108,22 @@ class ProgGen:
         if depth <= 0 or d(INT(0, 2)) == 0:
             return ["sig", PICK(d, (pool))]
         kind = PICK(d, (["slice", "idx", "cat", "bsel", "wsel", "arr", "sign", "rot", "sslice"]))
+        if len(pool) >= 3 and depth >= 2 and d(INT(0, 3)) == 0:
+            # a slice of one concatenation of three or more parts that reaches into the last part
+            perm = list(d(st.permutations(pool)))[:d(INT(3, min(4, len(pool))))]
+            cat = ["cat", [["sig", k] for k in perm]]
+            w = sum(self.env[k][0] for k in perm)
+            last = self.env[perm[-1]][0]
+            if last:
+                hi = d(INT(w - last + 1, w))
+                return ["slice", cat, d(INT(0, hi - 1)), hi]
         if kind == "cat" and len(pool) >= 2:
             # parts use disjoint signals so that no bit is addressed twice by one assignment
-            perm = d(st.permutations(pool))
-            cut = d(INT(1, len(perm) - 1))
-            return ["cat", [self.lhs(level, list(perm[:cut]), depth - 1), self.lhs(level, list(perm[cut:]), depth - 1)]]
+            perm = list(d(st.permutations(pool)))
+            nparts = d(INT(2, min(4, len(perm))))           # one concatenation of 2..4 parts (not only nested pairs)
+            cuts = sorted(d(st.lists(INT(1, len(perm) - 1), min_size=nparts - 1, max_size=nparts - 1, unique=True)))
+            chunks = [perm[a:b_] for a, b_ in zip([0] + cuts, cuts + [len(perm)])]
+            return ["cat", [self.lhs(level, chunk, depth - 1) for chunk in chunks]]
         inner = self.lhs(level, pool, depth - 1)
         w, _ = R.shape_of(inner, self.env)
         if kind == "idx" and w >= 1:
